@@ -185,6 +185,7 @@ func Values(level int) []*rdbgen.Value {
 	add(rdbgen.ZipmapVal([][2][]byte{{[]byte("f"), []byte("v")}}, 0), "1")
 	add(rdbgen.ZipmapVal([][2][]byte{{[]byte("f"), []byte("v")}, {[]byte(""), []byte("")}}, 3), "2-free3")
 	add(rdbgen.ZipmapVal([][2][]byte{{[]byte("f"), pattern(300)}, {pattern(254), []byte("x")}}, 1), "biglen")
+	add(rdbgen.ZipmapVal([][2][]byte{{pattern(253), pattern(253)}, {[]byte("g"), pattern(252)}}, 0), "len253")
 	// ziplists
 	ze := AllZE()
 	add(rdbgen.ListZiplistVal(nil, false, false), "0")
